@@ -225,6 +225,24 @@ var rdvNames = []string{
 	"client.Send-vs-client.Close",
 	"event-vs-client.Close",
 	"request-delivery-vs-serverConn.Close",
+	"event-handler-Send-vs-client.Close",
+	"request-handler-Send-vs-serverConn.Close",
+}
+
+// closeParkedOrReturned: the Close call made by the monitor has returned, or its goroutine is parked
+// (waiting for a lock or for the connection's goroutines). Bounded; observed, not assumed.
+func closeParkedOrReturned(w **callWatch, fn string, limit time.Duration) bool {
+	return waitUntil(limit, func() bool {
+		if cw := *w; cw != nil && cw.returned() {
+			return true
+		}
+		for _, g := range clientGoroutines() {
+			if g.Harness && strings.Contains(g.Stack, fn) && blockedState(g.State) {
+				return true
+			}
+		}
+		return false
+	})
 }
 
 var (
@@ -359,6 +377,95 @@ func runRdv(sp *caseSpec, res *caseResult) {
 		}
 		s.injectFault()
 		finish()
+	case "event-handler-Send-vs-client.Close", "request-handler-Send-vs-serverConn.Close":
+		// A user callback that is handed the connection calls Send on it while Close is under way: the
+		// callback is entered, THEN Close is called, and only when Close is parked (or done) the callback
+		// sends. Close must return, the callback's Send must return (accepted or refused), nothing may be left.
+		clientSide := sp.Name == "event-handler-Send-vs-client.Close"
+		sp.Step, sp.Handlers = "connected", true
+		sp.Fault = "serverConn.Close"
+		closeFn := "CqlServerConnection).Close"
+		if clientSide {
+			sp.Fault = "client.Close"
+			closeFn = "CqlClientConnection).Close"
+		}
+		entered := make(chan struct{})
+		goOn := make(chan struct{})
+		var closeWatch *callWatch
+		var once int32
+		hw := &callWatch{Name: "callback: " + sp.Fault[:len(sp.Fault)-6] + ".Send", Key: "callback-Send", done: make(chan struct{})}
+		var sendErr error
+		callback := func(send func() error) {
+			if !atomic.CompareAndSwapInt32(&once, 0, 1) {
+				return
+			}
+			close(entered)
+			select {
+			case <-goOn:
+			case <-time.After(stepLimit):
+			}
+			if !closeParkedOrReturned(&closeWatch, closeFn, 2*time.Second) {
+				res.count("rdv_callback_close_not_parked", 1)
+			}
+			sendErr = send()
+			close(hw.done)
+		}
+		if clientSide {
+			s.evHook = func(ev *frame.Frame, conn *client.CqlClientConnection) {
+				callback(func() error {
+					req, err := conn.Send(frame.NewFrame(s.ver, client.ManagedStreamId, s.query(4711)))
+					if err == nil {
+						s.addReq(newTrack("sent-by-event-handler", false, req))
+					}
+					return err
+				})
+			}
+		} else {
+			s.reqHook = func(request *frame.Frame, conn *client.CqlServerConnection) {
+				callback(func() error { return conn.Send(s.reply(request, s.supported())) })
+			}
+		}
+		if err := s.open(); err != nil {
+			fail("set-up failed", err)
+			return
+		}
+		if err := s.cc.InitiateHandshake(s.ver, client.ManagedStreamId); err != nil {
+			fail("fault point not reached", err)
+			return
+		}
+		if clientSide {
+			if err := s.sc.Send(eventFrame(s.ver)); err != nil {
+				fail("fault point not reached", err)
+				return
+			}
+		} else if err := s.clientSend("hooked", &message.Query{Query: "hook"}, false); err != nil {
+			fail("fault point not reached", err)
+			return
+		}
+		select {
+		case <-entered:
+		case <-time.After(stepLimit):
+			fail("hook not reached", fmt.Errorf("callback not entered"))
+			return
+		}
+		s.recvs = append(s.recvs, hw)
+		s.injectFault()
+		closeWatch = s.calls[len(s.calls)-1]
+		close(goOn)
+		s.stageA()
+		if !res.Abandon {
+			s.stageB()
+		}
+		res.Evals = 1
+		res.Sigs = append(res.Sigs, sp.signature())
+		res.count("rdv_cases", 1)
+		if hw.returned() {
+			if sendErr != nil {
+				res.count("rdv_callback_send_refused", 1)
+			} else {
+				res.count("rdv_callback_send_accepted", 1)
+			}
+		}
 	case "accept-vs-server.Close":
 		sp.Setup, sp.Step, sp.Fault = "lib-lib", "connected", "server.Close"
 		if err := s.open(); err != nil {
